@@ -135,6 +135,7 @@ def run(tier, seed):
             chk.sample({"text": s, "impl_dec": d})
     if R:
         R.close()
+    fw.env_invariance(chk, "codec")          # the same seeded cases under -O / -OO, warnings-as-errors, other TZ / locale, a private CA bundle
     return fw.finish(chk, ob, br, TRUSTED,
                      ["bytes are list Z with bytes_ok; Python str is a list of code points",
                       "the theorems are about Model/Base64.v; its agreement with CPython's codec as called by the library is what the correspondence run tests"],
